@@ -111,7 +111,7 @@ Definition set_locator (E : env) (nuid : Z) (locs : list (list Z)) (iuid typ idx
     else
       let p := znth locs1 typ [] in
       let nitem := zlen p in
-      let idx' := if fix_loc (e_cfg E) then Z.min idx nitem else idx in
+      let idx' := idx in
       if nitem <=? idx' then
         if e_cap E <? (idx' + 1) * 4 then Bad (Throw 1 16)
         else Ret (upd_nth locs1 (Z.to_nat typ) (set_at p (Z.to_nat idx') iuid)) (mkM (ms m) (galloc m + (idx' + 1 - nitem) * 4))
@@ -165,6 +165,17 @@ Fixpoint decode_locs (l : list (list Z)) : option (list (Z * Z)) :=
               else match decode_locs r with Some t => Some ((typ, idx) :: t) | None => None end
   end.
 
+(* the check of fixes/C09_5 after the names / locators loop: column i with role (t, k) is entry k of the list of t,
+   and the lists hold as many entries as there are columns with a role *)
+Fixpoint post_cols (locs : list (list Z)) (i : Z) (tab : list (Z * Z)) : bool :=
+  match tab with
+  | [] => true
+  | (t, k) :: r => ((t <? 0) || (znth (znth locs t []) k (-1) =? i)) && post_cols locs (i + 1) r
+  end.
+Definition declared (tab : list (Z * Z)) : Z := zlen (filter (fun p => 0 <=? fst p) tab).
+Definition post_ok (tab : list (Z * Z)) (locs : list (list Z)) : bool :=
+  post_cols locs 0 tab && (zlen (concat locs) =? declared tab).
+
 (* the loop over the samples: _recordReadVecInPlace(is, title, it, ncol), [it] running through allvalues *)
 Fixpoint rows_loop (E : env) (fuel : nat) (nech ncol total : Z) (iech pos : Z) (acc : list (list Z)) (m : mon)
   : res (option (list (list Z))) :=
@@ -210,10 +221,12 @@ Definition db_deserialize (E : env) (gt : option (Z * Z)) (m : mon) : res (optio
       | None => Ret None m6
       | Some ws =>
           match decode_locs locs with
-          | None => if fix_loc (e_cfg E) then Ret None m6    (* candidate fix C09_3: a refused locator is a failure *)
+          | None => if fix_locfail (e_cfg E) then Ret None m6    (* fix C09_3 (second hunk): a refused locator is a failure *)
                     else Ret (Some db_empty) m6        (* "return true" on a refused locator: nothing loaded *)
           | Some tab =>
-              (* candidate fix C09_4: a DbGrid refuses a number of samples that is not the grid size *)
+              (* proposed fix C09_5: a locator rank is below the number of columns of the file *)
+              if fix_rank (e_cfg E) && existsb (fun p => ncol <=? snd p) tab then Ret None m6 else
+              (* fix C09_4: a DbGrid refuses a number of samples that is not the grid size *)
               if fix_grid (e_cfg E) && match gt with Some (_, exact) => negb (nech =? exact) | None => false end then Ret None m6 else
               (* resetDims(ncol, nech) — virtual: DbGrid::resetDims replaces nech by the grid size *)
               let nech' := match gt with Some (n32, _) => n32 | None => nech end in
@@ -226,6 +239,8 @@ Definition db_deserialize (E : env) (gt : option (Z * Z)) (m : mon) : res (optio
               let arr := if (0 <? ncol) && (0 <? total) && (0 <? nech') then load_data ncol nech' (map value_double ws)
                          else if 0 <? total' then repeat zero (Z.to_nat total') else [] in
               do nl, m9 <- apply_cols E ncol 0 names tab (map new_name (map (Z.add 1) (zseq ncol))) no_loc m8;
+              (* proposed fix C09_5: every column finds itself at its declared rank and no role slot is a filler *)
+              if fix_rank (e_cfg E) && negb (post_ok tab (snd nl)) then Ret None m9 else
               Ret (Some (mkDb ncol nech' (fst nl) (zseq ncol) (snd nl) arr)) m9
           end
       end
@@ -281,7 +296,7 @@ Definition dbgrid_deserialize (E : env) (m : mon) : res (option dbgrid) :=
                 | None => Ret (false, []) m2
                 end);
   let '(ret, rows) := hd in
-  (* candidate fix C09_4: a failed header is reported before the grid is built *)
+  (* fix C09_4: a failed header is reported before the grid is built *)
   if fix_grid (e_cfg E) && negb ret then Ret None m3 else
   (* gridDefine: Grid::_allocate + Rotation::resetFromSpaceDimension (two ndim x ndim matrices) *)
   do _, m4 <- alloc E 23 (ndim * ndim) 8 m3;
